@@ -10,7 +10,10 @@ from vf.chk import And, Or, Not, Implies, Iff, If
 
 
 def _arr(m, name, shape):
-    """array of fresh reals of the given shape (() -> scalar)"""
+    """array of fresh reals of the given shape (() -> scalar); a shape given as ('T', n, k) is the transpose of a (k, n) array,
+    i.e. an (n, k) array that is not C-contiguous"""
+    if shape and shape[0] == 'T':
+        return _arr(m, name, (shape[2], shape[1])).T
     if shape == ():
         return m.real(name)
     dt = object if m.sym else float
@@ -252,7 +255,7 @@ def harnesses(tier):
     hs.append(('getitem/(2,2)', P(h_getitem, (2, 2))))
     for sa, sb in ([((), ()), ((2,), (2,)), ((), (2,))] if q else [((), ()), ((2,), (2,)), ((), (2,)), ((2, 1), (1, 2)), ((3,), (3,))]):
         hs.append((f'arith/{sa}{sb}', P(h_arith, sa, sb)))
-    for shape in ([(), (2,), (1, 2), (2, 2)] if q else [(), (2,), (1, 2), (2, 2), (2, 1, 2)]):
+    for shape in ([(), (2,), (1, 2), (2, 2), ('T', 2, 2)] if q else [(), (2,), (1, 2), (2, 2), (2, 1, 2), ('T', 2, 2), ('T', 2, 3)]):
         for au in (['deg'] if q else ['deg', 'rad', 'arcmin']):
             hs.append((f'rotate/{shape}/{au}', P(h_rotate, shape, au)))
     for shape in [(), (3,), (2, 2)]:
@@ -271,7 +274,7 @@ def cases(tier, seed):
 META = {
     'functions_encoded': ['regions.core.pixcoord.PixCoord.__init__/copy/isscalar/__len__/__iter__/__getitem__/__add__/'
                           '__sub__/__eq__/to_sky/from_sky/separation/xy/rotate'],
-    'bounds': {'quick': {'shapes': 'scalar, (0,), (2,), (3,), (2,2), (1,3)+(3,1), non-broadcastable pairs; rotation on scalar, (2,), (1,2), (2,2)',
+    'bounds': {'quick': {'shapes': 'scalar, (0,), (2,), (3,), (2,2), (1,3)+(3,1), non-broadcastable pairs; rotation on scalar, (2,), (1,2), (2,2) and a transposed (non-contiguous) (2,2)',
                          'index expressions': '11 1-D keys, 10 2-D keys', 'elements': 'unbounded reals',
                          'rotation': 'two arbitrary angles (unit-circle atoms), arbitrary centre'},
                'thorough': {'shapes': 'as quick + (2,1)+(1,2), (1,2); rotation also on (2,1,2)', 'angle_units': ['deg', 'rad', 'arcmin'],
